@@ -662,7 +662,7 @@ fn session(ctx: &Ctx, kernel: &K) -> WorldResult {
         let mut k = kernel.borrow_mut();
         k.src.nontrivial = true;
         k.src.probe("full-event-delivery-judged");
-        let typed: String = k.typed.iter().map(|b| *b as char).collect();
+        let typed: String = k.typed.iter().collect();
         let keys: String = s.keys.iter().collect();
         if typed != keys {
             return_violation(kernel, &mut k);
@@ -744,7 +744,7 @@ fn note_event(s: &mut St, k: &Kernel, event: &Option<TerminalEvent>) {
     match event {
         Some(TerminalEvent::Key(key)) => {
             if let KeyName::Char(c) = key.name {
-                if key.mode.is_empty() && c.is_ascii() && TYPED.contains(&(c as u8)) {
+                if key.mode.is_empty() && typed_char(c) {
                     s.keys.push(c);
                 }
             }
